@@ -98,9 +98,7 @@ func reshareShiftedKey(r *Run, rng *rand.Rand, curve string, dev int) {
 			}
 		}
 	}
-	if curve == "ed" {
-		rsJudge(r, net, nOld, 1, fmt.Sprintf("shifted key by old member %d", dev))
-	}
+	rsJudgeOn(r, net, nOld, 1, fmt.Sprintf("shifted key by old member %d", dev), curve)
 	r.Dist[what]++
 	r.Assert(accepted == 0, what, "new-members-never-accept-shares-of-another-key", func() string {
 		return fmt.Sprintf("old member %d of 3 reshared x+1 and announced Y+λG: %d new members saved key material of a key other than the one the other old members announced", dev, accepted)
